@@ -20,7 +20,9 @@ func init() {
 			"C05.a TABLE: every encoder and decoder of the WAL format in the module (Reader.ReadHeader/ReadFrame, WALHeader.Copy, Writer.writeWALHeader/writeFrame, CompactingFrameScanner.Bytes, ReadSaltAt, db.IsValidSQLiteWALData) places each field at the byte offset of the SQLite WAL specification (header: magic 0, version 4, page size 8, sequence 12, salt 16/20, checksum 24/28; frame: page 0, commit 4, salt 8/12, checksum 16/20); a codec site in db/wal that is not in the reviewed table is undecided. " +
 			"C05.b ORD (checksum chain): in every frame writer and in ReadFrame the running checksum is advanced over the first 8 header bytes and then over the page data, each step seeded by the previous one, the stored/compared checksum is the result of the second step, and the chain is seeded from the WAL header's checksum (field stores in NewWriter/writeWALHeader, phi entry edges in Bytes, ReadHeader). " +
 			"C05.c DOM (scan): frames reach the output map only through maps.Copy on the commit!=0 edge and keyed by page number; the loop-carried waitingForCommit flag is true exactly on the commit==0 back edge; a nil-error return requires waitingForCommit false (ErrOpenTransaction otherwise) and passes the sort by file offset; the per-frame offset is derived from Reader.Offset; Next/Bytes read page data at Offset+WALFrameHeaderSize; Writer.WriteTo returns nil only after Next returned io.EOF. " +
-			"C05.d DOM (valid prefix): ReadFrame returns success only if both salts equal the header's, and — when page data is read — only if both checksums equal the chain; every production construction of a compacting scanner must request checksum validation, otherwise frames beyond the valid prefix with matching salts (left by a rolled-back transaction that spilled into the WAL) are scanned.",
+			"C05.d DOM (valid prefix): ReadFrame returns success only if both salts equal the header's, and — when page data is read — only if both checksums equal the chain; every production construction of a compacting scanner must request checksum validation, otherwise frames beyond the valid prefix with matching salts (left by a rolled-back transaction that spilled into the WAL) are scanned. " +
+			"C05.e CONST (byte order): in package db/wal a byte order held in a variable (the one the magic number selects) reads or writes integers only inside WALChecksum; every WAL field, including the stored checksums, is accessed through binary.BigEndian. " +
+			"C05.f CONST (page sizes): no comparison of a page-size value (a pageSize field, a value stored into one, or a parameter that receives one inside the package) with a constant lies strictly between 512 and 65536.",
 		NotCovered: []string{"byte equality of the databases after checkpoint (needs SQLite executions)", "the arithmetic of Reader.Offset and of the start offset", "WALChecksum's arithmetic"},
 		Run:        runC05,
 	})
@@ -323,6 +325,7 @@ func decRoles(fn *ssa.Function, v ssa.Value) []string {
 }
 
 func runC05(c *core.Ctx) {
+	c05e(c)
 	// ---- C05.a layout table
 	nSites := 0
 	walPkg := c.P.SPkg("db/wal")
